@@ -775,6 +775,7 @@ static void DecodeNorm(Word Index) {
             memcpy(BAsmCode + 1, AdrResult.AdrVals, AdrResult.AdrCnt);
             CodeLen = AdrResult.AdrCnt + 1;
             if ((AdrResult.ErgMode == ModInd16) && (MomCPU != CPU65C02)
+                && (MomCPU != CPU65SC02) && (MomCPU != CPUW65C02S)
                 && (BAsmCode[1] == 0xff)) {
                 WrError(ErrNum_NotOnThisAddress);
                 CodeLen = 0;
